@@ -33,7 +33,8 @@ from .speclib import mk
 
 NaN = float("nan")
 FACT_VALUES = (0.0, 1.0, 2.5, NaN)
-WEIGHT_VALUES = (0.0, 1.5, 2.0, NaN)  # NaN == a missing weight; every product with a fact value is exact in binary
+WEIGHT_VALUES = (0.0, 0.7, 0.1, NaN)  # NaN == a missing weight; NON-dyadic on purpose: marginal differencing then leaves rounding
+# residues in reconstructed cells, which the library must still report by the rule (values are compared within the tolerance)
 GARBAGE = (7.0, NaN)  # what lies under a False validity (arbitrary, including NaN)
 AGG_OWNER = "ccubes.ccube"
 
